@@ -189,6 +189,10 @@ def check_tone(case, ctx: Ctx):
 
 
 # ------------------------------------------------------------------ fall time
+def _wf_d(w):
+    return sum(_wf_d(x) for x in w["parts"]) if w["k"] == "composite" else w["d"]
+
+
 @st.composite
 def fall_cases(draw):
     bw = draw(st.sampled_from([1.5, 4, 8, 20, 40, 150]))
@@ -196,6 +200,23 @@ def fall_cases(draw):
               max_duration=None, mod_bandwidth=bw)
     eom = draw(st.sampled_from([None, 20, 40, 100]))
     p = draw(gen.pulse_specs(cs))
+    if draw(st.integers(0, 2)) == 0:
+        # amplitude alone decides the fall time: zero / smoothly ending detuning and an
+        # amplitude that is asymmetric in time (start and end buffers differ)
+        d = draw(st.sampled_from([16, 52, 100, 203, 400]))
+        hi = draw(gen.fl(0.5, 12.0))
+        amp = draw(st.sampled_from([
+            dict(k="ramp", d=d, a=0.0, b=hi),
+            dict(k="ramp", d=d, a=hi, b=0.0),
+            dict(k="interp", d=d, values=[0.0, 0.2 * hi, hi]),
+            dict(k="composite", parts=[dict(k="blackman", d=d, area=hi * d * 0.42e-3),
+                                       dict(k="const", d=max(d // 2, 1), v=hi)]),
+            dict(k="composite", parts=[dict(k="const", d=max(d // 2, 1), v=hi),
+                                       dict(k="blackman", d=d, area=hi * d * 0.42e-3)]),
+        ]))
+        det = draw(st.sampled_from([dict(k="const", d=_wf_d(amp), v=0.0),
+                                    dict(k="blackman", d=_wf_d(amp), area=-1.0)]))
+        p = dict(k="pulse", amp=amp, det=det, phase=0.0)
     return dict(bw=bw, eom=eom, pulse=p)
 
 
